@@ -247,6 +247,10 @@ func runAckCase(work string, c *AckCase) {
 						fail("", fmt.Sprintf("write %v acknowledged before its local apply completed", x.b))
 						x.index = -1
 					}
+					// DIRECT ORACLE: the snapshot-index candidate never runs ahead of the entries applied to the shard
+					if ci := w.node.SnapShotter.CommittedIndex; ci > uint64(i) {
+						fail("", fmt.Sprintf("SnapShotter.CommittedIndex=%d while only %d entries are applied", ci, i))
+					}
 					w.st.gate <- struct{}{}
 				}
 			}
